@@ -69,7 +69,8 @@ func checkSDTVal(c *Ctx, p *Prog, rule string) {
 		{"$0 / $00", '0', true, `"X[0]"`},
 	} {
 		var trimmed []string
-		reg := &Region{Fn: cl, Params: map[string]Val{"match": VOpq{"match"}}, Summaries: map[string]Summary{
+		// the closure's parameter is called "match" here whatever its name in the source
+		reg := &Region{Fn: cl, Params: map[string]Val{cl.Params[0].Name(): VOpq{"match"}}, Summaries: map[string]Summary{
 			"strings.TrimLeft": func(r *Run, cc *ssa.CallCommon, args []Val) (Val, error) {
 				trimmed = append(trimmed, render(args[0])+" without leading "+render(args[1]))
 				return VOpq{"NOZEROS"}, nil
